@@ -148,6 +148,7 @@ def run(ctx):
     choicelib.run_half_step(ctx, max(40, n // 4))
     choicelib.run_scaling(ctx, 25 if ctx.tier == 'quick' else 400)
     choicelib.run_rounded_totals(ctx)
+    choicelib.run_salt_alphabet(ctx)      # the position is md5 of salt + ids, whatever characters the salt holds
     choicelib.run_numeric_twin_sequences(ctx)
     choicelib.run_ulp_boundaries(ctx)
     subnormal_probe(ctx)
